@@ -12,6 +12,8 @@ from efootprint.abstract_modeling_classes.explainable_objects import Explainable
 from efootprint.constants.units import u  # noqa: E402
 
 N_OBJ, N_ATTR = 3, 4
+DICT_ATTRS = [100, 101]     # attributes d100, d101 of every dummy hold an ExplainableObjectDict
+N_KEYS = 3
 
 
 class Dummy(ModelingObject):
@@ -30,10 +32,10 @@ class Dummy(ModelingObject):
 
     @property
     def calculated_attributes(self):
-        return [f"c{i}" for i in range(N_ATTR)]
+        return [f"c{i}" for i in range(N_ATTR)] + [f"c{i}" for i in DICT_ATTRS]
 
 
-def gen_ops(rng, n):
+def gen_ops(rng, n, with_dicts=False):
     """mostly the discipline the engine follows (fresh values set into slots, replacements of attached values),
     plus a stream of irregular operations (re-attaching, detaching twice, replacing detached values)"""
     ops, cont, holder = [], [], {}
@@ -51,9 +53,21 @@ def gen_ops(rng, n):
         holder[sl] = v
         cont[v] = sl
 
+    entries = {}          # dict slot -> {key: value}
     for _ in range(n):
         r = rng.random()
         irregular = rng.random() < 0.05
+        if with_dicts and cont and rng.random() < 0.2:
+            cands = attached() if irregular else detached()
+            if not cands:
+                continue
+            v = rng.choice(cands)
+            sl = (rng.randrange(N_OBJ), rng.choice(DICT_ATTRS))
+            key = rng.randrange(N_KEYS)
+            ops.append({"op": "dictset", "slot": list(sl), "key": key, "v": v})
+            entries.setdefault(sl, {})[key] = v
+            cont[v] = sl
+            continue
         if not cont or r < 0.35:
             pool = attached() * 3 + detached()
             k = rng.choice([0, 1, 2, 2]) if pool else 0
@@ -77,7 +91,13 @@ def gen_ops(rng, n):
             if cont[old] is not None:
                 sl = cont[old]
                 cont[old] = None
-                attach(new, sl)
+                if sl[1] >= 100:
+                    for k_, x_ in entries.get(sl, {}).items():
+                        if x_ == old:
+                            entries[sl][k_] = new
+                    cont[new] = sl
+                else:
+                    attach(new, sl)
         else:
             v = rng.randrange(len(cont))
             ops.append({"op": "detach", "v": v})
@@ -93,11 +113,19 @@ def err_kind(e):
         return "otherContainer"
     if isinstance(e, AssertionError) and "is not linked to a ModelingObject" in m:
         return "notAttached"
+    if "Multiple keys found" in m:
+        return "multipleKeys"
+    if isinstance(e, (KeyError, AttributeError)) and ("not found as key" in m or "NoneType" in m):
+        return "keyError"
     return f"other:{type(e).__name__}:{m[:60]}"
 
 
 def run_real(ops):
+    from efootprint.abstract_modeling_classes.explainable_object_dict import ExplainableObjectDict
     dummies = [Dummy(f"dummy{i}") for i in range(N_OBJ)]
+    for d in dummies:
+        for a in DICT_ATTRS:
+            d.__setattr__(f"c{a}", ExplainableObjectDict())
     vals = []
     err = None
     for k, op in enumerate(ops):
@@ -113,6 +141,8 @@ def run_real(ops):
                 vals[op["old"]].replace_in_mod_obj_container_without_recomputation(vals[op["new"]])
             elif op["op"] == "detach":
                 vals[op["v"]].set_modeling_obj_container(None, None)
+            elif op["op"] == "dictset":
+                getattr(dummies[op["slot"][0]], f"c{op['slot'][1]}")[f"k{op['key']}"] = vals[op["v"]]
         except Exception as e:  # noqa
             err = {"at": k, "kind": err_kind(e)}
             break
@@ -131,7 +161,7 @@ def shard(args):
     seed, n = args
     rng = random.Random(seed)
     out = {"cases": 0, "ops": 0, "disagreements": [], "errs": {}, "mirror_false": 0, "kinds": {}, "samples": []}
-    cases = [gen_ops(rng, rng.randint(3, 40)) for _ in range(n)]
+    cases = [gen_ops(rng, rng.randint(3, 40), with_dicts=(k % 2 == 1)) for k in range(n)]
     reals = []
     for ops in cases:
         with watchdog(30):
@@ -162,7 +192,8 @@ def shard(args):
 
 
 if __name__ == "__main__":
-    o = shard((0, 300))
+    import sys
+    o = shard((int(sys.argv[1]) if len(sys.argv) > 1 else 0, 300))
     print({k: v for k, v in o.items() if k not in ("disagreements", "samples")})
     for d in o["disagreements"][:5]:
         print(d)
